@@ -19,6 +19,8 @@ def check(ctx):
     rep.floor("codec / filter entry points of the C API", ncd, 5)
     nlg = ffi.check_length_getters(ctx, rep)
     rep.floor("length getters of the C API", nlg, 7)
+    ffi.check_c_string_conversions(ctx, rep)
+    nops = ffi.check_out_param_stores(ctx, rep)
     nfl = ffi.check_named_flags(ctx, rep)
     rep.floor("utc-flag selected accessors", nfl, 2)
     rep.floor("kind-specific C functions (is_/get_/make_)", nk, 60)
